@@ -150,6 +150,9 @@ func compareIntStrings(a, b string) (int, error) {
 	if err != nil {
 		return 0, err
 	}
+	if compareNormalizedDigits(da, maxSigned256Digits) > 0 || compareNormalizedDigits(db, maxSigned256Digits) > 0 {
+		return 0, errors.New("integer out of range")
+	}
 
 	if na != nb {
 		if na {
